@@ -30,7 +30,8 @@ class _Converted:
 def _mean_orbit(c, el, t0, n):
     def conv(self, frame=None, form=None, same=None):
         return _Converted(self)
-    infos = types.SimpleNamespace(n=n, r=None)
+    # the instantaneous radius is some positive real unrelated to the elements as far as the rates are concerned
+    infos = types.SimpleNamespace(n=n, r=c.real("r_inst", lo=0))
     return SymStateVector(list(el), date=SymDate(t0), form="keplerian_mean", frame="EME2000", infos=infos, __convert__=conv)
 
 
@@ -115,7 +116,7 @@ def _(c):
     user = _mean_orbit(c, el, t0, n)
     jp.orbit = user
     bound = object.__getattribute__(jp, "__dict__")["_orbit"]
-    bound._data["infos"] = types.SimpleNamespace(n=n, r=None)
+    bound._data["infos"] = types.SimpleNamespace(n=n, r=c.real("r_inst", lo=0))
     bound._data["__convert__"] = user._data["__convert__"]
     res = jp.propagate(SymDate(t1))
     dt = t1 - t0
